@@ -357,7 +357,7 @@ fn exhaustive(sink: &mut Sink) {
     }
     let seconds = vec![GTree::leaf(GValue::Text("z".into())), GTree::leaf(GValue::Element(6))];
     const OPS2: &[&str] = &["append", "prepend", "insert_after", "insert_before", "replace"];
-    const OPS1: &[&str] = &["detach", "remove", "unwrap", "wrap"];
+    const OPS1: &[&str] = &["detach", "remove", "unwrap", "wrap", "clone", "set_text", "text_content_set", "map_insert", "map_remove"];
     for kids in &kid_lists {
         for second in &seconds {
             let forest = vec![GTree::new(GValue::Element(2), kids.clone()), second.clone()];
@@ -371,7 +371,10 @@ fn exhaustive(sink: &mut Sink) {
                 }
                 let req = match op {
                     "wrap" => format!("wrap {} 6", a),
-                    "detach" | "remove" | "unwrap" => format!("{} {}", op, a),
+                    "detach" | "remove" | "unwrap" | "clone" => format!("{} {}", op, a),
+                    "set_text" | "text_content_set" => format!("{} {} {}", op, a, enc("k")),
+                    "map_insert" => format!("map_insert attr {} 3 {}", a, enc("v")),
+                    "map_remove" => format!("map_remove attr {} 3", a),
                     _ => format!("{} {} {}", op, a, b),
                 };
                 sink.stat("exhaustive.cases");
